@@ -26,8 +26,8 @@ Definition a_set (w : Z) (sg : bool) (v : Z) : list Z :=
   let m := lt_mask w in
   [ tb_get_val (tb_set_val w sg v); tb_val_getter (tb_set_val w sg v); tb_get_val (tb_val_setter w sg v);
     tb_get_val (tb_set_val w sg v); tb_get_val (tb_set_val w sg v);
-    lt_getitem w sg m (lt_append w m v); lt_iter_next w sg m (lt_append w m v);
-    lt_getitem w sg m (lt_setitem w v); lt_getitem w sg m (lt_append w m v); lt_getitem w sg m (lt_append w m v) ].
+    lt_getitem w sg m (lt_append w sg m v); lt_iter_next w sg m (lt_append w sg m v);
+    lt_getitem w sg m (lt_setitem w sg m v); lt_getitem w sg m (lt_append w sg m v); lt_getitem w sg m (lt_append w sg m v) ].
 Definition a_read (w : Z) (cur : Z) : list Z :=
   map (fun p => tb_getitem_slice cur (fst p) (snd p)) (slices w) ++ map (fun k => tb_getitem_bit cur k) (zseq 0 (w - 1)).
 Definition a_write (w : Z) (sg : bool) (cur : Z) : list Z :=
